@@ -404,12 +404,12 @@ func init() {
 	props["C15"] = PropSpec{
 		ID: "C15",
 		Runs: []HarnessRun{
-			{Rel: "middleware/session", Dir: "session", Entry: "VH_C15_store", Cases: tierCases([]int{0, 2, 4, 8}, []int{0, 1, 2, 3, 4, 5, 8, 9, 10, 12}), Reach: []string{"resumed", "fresh", "expired", "old-id-checked", "second-get"}, MaxPaths: 600000, ExtraPkgs: sessPkgs},
+			{Rel: "middleware/session", Dir: "session", Entry: "VH_C15_store", Cases: tierCases([]int{0, 2, 4, 8}, []int{0, 2, 4, 8, 10, 12}), Reach: []string{"resumed", "fresh", "expired", "old-id-checked", "second-get"}, MaxPaths: 600000, ExtraPkgs: sessPkgs},
 			{Rel: "middleware/session", Dir: "session", Entry: "VH_C15_mw", Cases: tierCases([]int{0, 2, 4, 9}, []int{0, 1, 2, 3, 4, 5, 8, 9, 10, 12}), Reach: []string{"resumed", "fresh", "expired", "abs-expired", "old-id-checked", "told"}, MaxPaths: 600000, ExtraPkgs: sessPkgs},
 		},
 		Bounds: map[string]string{
 			"quick":    "Store API histories of 2 (one case 3) steps: each step presents no id / an id issued earlier / a forged id through cookie, header or query, checks what the session shows, performs read / set(k, symbolic value) / delete / destroy / regenerate / reset, saves, and advances the virtual clock by 0, 3 or 5 s against IdleTimeout 4 s (one 3-step case with AbsoluteTimeout 5 s, reached by two gaps of 3 s); store API: a second destroy/regenerate/reset after the save in the same request; middleware: auto-save, and the id in Set-Cookie / response header equals the session's id",
-			"thorough": "2 and 3 steps for every source, with and without absolute timeout",
+			"thorough": "store API: 2 steps for every source, with and without absolute timeout (3-step store histories exceed 600 000 paths: outside); middleware: 2 and 3 steps for every source, with and without absolute timeout",
 		},
 		Assumptions: []string{
 			"encoding/gob (reflection) is replaced by a table-backed codec that keeps gob's observable behaviour: encode snapshots the map, decode merges into the target map, unknown bytes fail",
